@@ -10,7 +10,7 @@ STUBS = ['format_stdout -> no-op']
 BOUNDS = {'quick': 'CMPop IFop IFCMPop ASSERT ASSERT_op ASSERT_CMPop ASSERT_NONE/SOME/LEFT/RIGHT FAIL IF_SOME IF_RIGHT; DI{2..5}P, DU{2..5}P; every P[PAI]+R / UNP..R tree with <= 4 leaves; '
                    'C[AD]{2..3}R, SET_C[AD]{1..3}R, MAP_C[AD]{1..3}R; with and without annotations; all stack values symbolic (unbounded ints, bools)',
           'thorough': 'PAIR trees with <= 5 leaves; C[AD]{2..4}R'}
-OUTSIDE = ['annotation *placement* produced by annotated PAIR-tree macros (annotations do not affect execution: C17)', 'longer macro names']
+OUTSIDE = ['annotation placement of macros other than the PAIR trees', 'longer macro names']
 ASSUMPTIONS = ['reference meaning of each macro as in the Michelson documentation, written directly on stack values in this file']
 
 OPS = {'EQ': lambda c: c == 0, 'NEQ': lambda c: c != 0, 'LT': lambda c: c < 0, 'GT': lambda c: c > 0, 'LE': lambda c: c <= 0, 'GE': lambda c: c >= 0}
@@ -324,6 +324,61 @@ def conc_macro(P, w):
     return res
 
 
+# ---- annotation placement of PAIR-tree macros (type-level evaluation of the expansion) -----------------
+def _eval_annots(code, stack):
+    """stack items: ('leaf', i) | ('pair', (annot, item), (annot, item)); only PAIR and DIP occur in PAIR-tree expansions"""
+    for ins in code:
+        if isinstance(ins, list):
+            stack = _eval_annots(ins, stack)
+            continue
+        prim, args, annots = ins['prim'], ins.get('args', []), ins.get('annots', [])
+        if prim == 'PAIR':
+            fa = [a for a in annots if a.startswith('%')]
+            la = fa[0] if len(fa) > 0 else '%'
+            ra = fa[1] if len(fa) > 1 else '%'
+            stack = [('pair', (la, stack[0]), (ra, stack[1]))] + stack[2:]
+        elif prim == 'DIP':
+            n = int(args[0]['int']) if len(args) == 2 else 1
+            body = args[-1]
+            stack = stack[:n] + _eval_annots(body, stack[n:])
+        else:
+            raise AssertionError(f'unexpected instruction {prim} in a PAIR-tree expansion')
+    return stack
+
+
+def _leaf_annots(node, annot='%', out=None):
+    out = {} if out is None else out
+    if node[0] == 'leaf':
+        out[node[1]] = annot
+    else:
+        _leaf_annots(node[1][1], node[1][0], out)
+        _leaf_annots(node[2][1], node[2][0], out)
+    return out
+
+
+def conc_pxr_annots(P, w):
+    name, n = P['arg'], P['n']
+    k = int(w.get('k', P.get('k', n)))
+    annots = ['%' + 'f' + str(i) for i in range(k)]
+    try:
+        code = expand(name, annots)
+        res = _eval_annots(code, [('leaf', i) for i in range(n)] + [('leaf', 99)])
+    except Exception as e:  # noqa
+        return {'ok': False, 'observed': f'{type(e).__name__}: {e}'}
+    got = _leaf_annots(res[0])
+    exp = {i: (annots[i] if i < k else '%') for i in range(n)}
+    got_n = {i: ('%' if a in ('%', '%@') else a) for i, a in got.items()}
+    return {'ok': got_n == exp, 'macro': name, 'annots': annots, 'expansion': code, 'observed': got_n, 'expected': exp}
+
+
+def sym_pxr_annots(P, ex):
+    k = mbv._choose(ex, 'k', 0, P['n'])
+    r = conc_pxr_annots(P, {'k': k})
+    if not r['ok']:
+        ex.fail_here(f'{P["arg"]} with {k} field annotations: leaves annotated {r.get("observed")}, expected {r.get("expected")}')
+    ex.check(True)
+
+
 def obligations(tier):
     q = tier == 'quick'
     t = 120 if q else 600
@@ -343,6 +398,8 @@ def obligations(tier):
         add(f'D{"U" * n}P', {'family': 'DUP', 'arg': n}, f'stack of {n} symbolic values')
     for name, tree in pair_trees(4 if q else 5):
         add(f'{name}+UN{name}', {'family': 'PXR', 'arg': name, 'tree': tree}, 'symbolic leaves; the tree built and UNPxR o PxR = identity')
+        obs.append(Ob(f'{name}/annotation-placement', 'bvx', sym_pxr_annots, conc_pxr_annots, {'arg': name, 'n': _n_leaves(tree)}, timeout=t,
+                      bounds='the first k field annotations (k solver-chosen, 0..number of leaves) go to the first k leaves of the tree, in order', targets=TARGETS))
         if _n_leaves(tree) == 3:
             add(f'{name}+annots', {'family': 'PXR', 'arg': name, 'tree': tree, 'annots': ['%a', '%b', '%c']}, 'same with field annotations')
     for p in _paths(2, 3 if q else 4):
